@@ -121,9 +121,9 @@ func pathD(v ssa.Value, d int) string {
 	case *ssa.Convert:
 		return pathD(x.X, d+1)
 	case *ssa.IndexAddr:
-		return pathD(x.X, d+1) + "[]"
+		return pathD(x.X, d+1) + indexStr(x.Index)
 	case *ssa.Index:
-		return pathD(x.X, d+1) + "[]"
+		return pathD(x.X, d+1) + indexStr(x.Index)
 	case *ssa.Lookup:
 		return pathD(x.X, d+1) + "[]"
 	case *ssa.Extract:
@@ -658,4 +658,21 @@ func withAnon(fn *ssa.Function) []*ssa.Function {
 		res = append(res, withAnon(a)...)
 	}
 	return res
+}
+
+// constIntOfObj returns the integer value of a constant object.
+func constIntOfObj(o types.Object) (int64, bool) {
+	c, ok := o.(*types.Const)
+	if !ok {
+		return -1, false
+	}
+	return constant.Int64Val(c.Val())
+}
+
+// indexStr renders a constant slice index as [k], any other as [].
+func indexStr(i ssa.Value) string {
+	if k, ok := constInt(i); ok {
+		return fmt.Sprintf("[%d]", k)
+	}
+	return "[]"
 }
